@@ -11,6 +11,12 @@ from .common import FIELD, MESH
 from .c01 import each, _single_return
 
 FLOOR = 22
+ANCHORS = [
+    'field.Field.integrate',
+    'field.Field.mean',
+    'operators.integrate',
+    'mesh.Mesh.dV',
+]   # functions whose code the property is anchored in (mutation analysis, evidence)
 
 
 def run(chk):
